@@ -198,6 +198,9 @@ impl VM {
         self.bp = 0;
         self.frames[0].ip = 0;
         self.frames[0].base_pointer = 0;
+        // a previous run that ended in an error may have left operands and call frames behind
+        self.frames.truncate(1);
+        self.stack.clear();
 
         // Keep your friends close
         let constants = code.constants;
